@@ -214,6 +214,9 @@ int main(int argc, char **argv) {
         scs[i].horizon = 3000;
     }
     for (int i = 0; i < nprogs; ++i) {
+#ifdef VSX_FREE
+        if (i % (nprogs / 24 + 1) != 0) continue; /* the free-running ThreadSanitizer twin samples two dozen programs */
+#endif
         run_index_for_child = i;
         if (v_replay_token) {
             size_t l = strlen(names[i]);
